@@ -14,6 +14,29 @@ type Probed struct {
 	Types []ast.DType
 }
 
+// snap deep-copies a script value at observation time (lists and maps are shared and mutable); cyclic
+// structures are cut off at a fixed depth.
+func snap(v any, d int) any {
+	if d == 0 {
+		return nil
+	}
+	switch x := v.(type) {
+	case []any:
+		out := make([]any, len(x))
+		for i, e := range x {
+			out[i] = snap(e, d-1)
+		}
+		return out
+	case map[string]any:
+		out := make(map[string]any, len(x))
+		for k, e := range x {
+			out[k] = snap(e, d-1)
+		}
+		return out
+	}
+	return v
+}
+
 // funcTables returns the real builtin tables extended with probe(...), which evaluates each argument
 // with the interpreter and appends what it received to *log.
 func funcTables(log *[]Probed) (map[string]plruntime.FuncCall, map[string]plruntime.FuncCheck) {
@@ -32,7 +55,7 @@ func funcTables(log *[]Probed) (map[string]plruntime.FuncCall, map[string]plrunt
 			if err != nil {
 				return err
 			}
-			p.Vals = append(p.Vals, v)
+			p.Vals = append(p.Vals, snap(v, 8))
 			p.Types = append(p.Types, t)
 		}
 		if log != nil {
@@ -41,6 +64,24 @@ func funcTables(log *[]Probed) (map[string]plruntime.FuncCall, map[string]plrunt
 		return nil
 	}
 	check["probe"] = func(ctx *plruntime.Task, e *ast.CallExpr) *errchain.PlError { return nil }
+	// pv(x): logs its argument like probe and returns it (observes evaluation order / exactly-once)
+	call["pv"] = func(ctx *plruntime.Task, e *ast.CallExpr) *errchain.PlError {
+		v, t, err := plruntime.RunStmt(ctx, e.Param[0])
+		if err != nil {
+			return err
+		}
+		if log != nil {
+			*log = append(*log, Probed{Vals: []any{snap(v, 8)}, Types: []ast.DType{t}})
+		}
+		ctx.Regs.ReturnAppend(v, t)
+		return nil
+	}
+	check["pv"] = func(ctx *plruntime.Task, e *ast.CallExpr) *errchain.PlError {
+		if len(e.Param) != 1 {
+			return plruntime.NewRunError(ctx, "pv expects 1 arg", e.NamePos)
+		}
+		return nil
+	}
 	return call, check
 }
 
